@@ -311,7 +311,7 @@ def run(chk, replay=None):
             if not same and not [i for i in errs if i[1].startswith('MAP_VARIABLES')]:
                 oracle.append(('two connected variables with different base units are accepted', text, 'connected-units-incompatible', ['MAP_VARIABLES_ELEMENT'])); continue
         # correspondence of the two modelled checks
-        lines, expect = [], []
+        lines, expect, docs_of = [], [], {}
         for k in range(30 if chk.tier == 'quick' else 200):
             names = [rng.choice(['a', 'b', 'c', 'dd', 'e']) for _ in range(rng.randint(1, 7))]
             doc = '<?xml version="1.0" encoding="UTF-8"?>\n<model xmlns="http://www.cellml.org/cellml/2.0#" name="m">' + ''.join('<component name="%s"/>' % x for x in names) + '</model>'
@@ -323,6 +323,23 @@ def run(chk, replay=None):
             res = validate(doc)
             got = sorted(re.search(r"attribute '([^']*)'", i[2]).group(1) for i in res[1] if i[1] == 'XML_ID_ATTRIBUTE') if res else None
             lines.append('(ids %s)' % ' '.join('#' + x.encode().hex() for x in ids)); expect.append(','.join(got) if got else '-')
+            # ids on every kind of element, several of them described by the same words (two unit children of one units)
+            slots = [rng.choice(['i1', 'i2', 'i3', 'i4', 'i5', 'i6']) if rng.random() < 0.6 else None for _ in range(14)]
+            a_ = [' id="%s"' % x if x else '' for x in slots]
+            doc = ('<?xml version="1.0" encoding="UTF-8"?>\n<model xmlns="http://www.cellml.org/cellml/2.0#" name="m"%s>'
+                   '<units name="u0"%s><unit units="second"%s/><unit units="metre"%s/></units><units name="u1"%s><unit units="second"%s/><unit units="second"%s/></units>'
+                   '<component name="a"%s><variable name="x" units="u0" interface="public"%s/><variable name="y" units="u0"%s/></component>'
+                   '<component name="b"%s><variable name="x" units="u0" interface="public"%s/></component>'
+                   '<connection component_1="a" component_2="b"%s><map_variables variable_1="x" variable_2="x"%s/></connection></model>') % tuple(a_)
+            res = validate(doc)
+            got = sorted(re.search(r"attribute '([^']*)'", i[2]).group(1) for i in res[1] if i[1] == 'XML_ID_ATTRIBUTE') if res else None
+            ids = [x for x in slots if x]
+            dup = sorted(x for x in set(ids) if ids.count(x) > 1)
+            if got is not None and got != dup:
+                oracle.append(('the ids %s are carried by more than one element each, the validator reports duplicates for %s' % (dup, got), doc, 'id-duplicated', ['XML_ID_ATTRIBUTE']))
+            if ids:
+                lines.append('(ids %s)' % ' '.join('#' + x.encode().hex() for x in ids)); expect.append(','.join(got) if got else '-')
+                docs_of[len(lines) - 1] = doc
         # identifier syntax: the rule (if any) under which a component name is rejected
         alphabet = ['a', 'Z', 'q', '0', '9', '_', '-', ' ', '.', ':', 'é', 'µ', '٣', '__', 'x1']
         idnames = ['', '_', '1', 'a', '_1', '1_', 'a b', 'é', 'a-1', '0x', 'A_9z']
